@@ -30,6 +30,8 @@ CONSTANTS CYears, CMonths, CDays, CHours,   \* the reduced calendar
           NSV,          \* values of the field option noStandardView under test
           Variant, Order,
           MaxT, MaxS, MaxClr,   \* at most MaxT sets of column 0, MaxS of column 1, MaxClr clears
+          MaxPlain,     \* at most MaxPlain imports without timestamp
+          Vias,         \* write paths of timestamped bits: subset of {"set", "import", "views"}
           Depth, Gen
 
 Cols == {0, 1}
@@ -38,9 +40,9 @@ Stamps == {Hour(y, m, d, h) : y \in CYears, m \in CMonths, d \in CDays, h \in CH
 \* st: values that depend only on q, computed once in Init (TLC would otherwise recompute
 \* the calendar arithmetic in every step): the range ends, the ranges observed, the order in
 \* which ClearBit visits the views, the digits and the interval of every view
-VARIABLES q, nsv, st, truth, std, vx, vc, cnt, pend, hist
-vars == <<q, nsv, st, truth, std, vx, vc, cnt, pend, hist>>
-MView == <<q, nsv, truth, std, vx, vc, cnt, pend>>
+VARIABLES q, nsv, st, truth, std, plain, vx, vc, cnt, pend, hist
+vars == <<q, nsv, st, truth, std, plain, vx, vc, cnt, pend, hist>>
+MView == <<q, nsv, truth, std, plain, vx, vc, cnt, pend>>
 
 ViewsU(qq) == UNION {ViewsForTime(qq, t) : t \in Stamps}
 FinestLo(qq, t) == ViewLo(ViewAt(Finest(qq), t))
@@ -120,9 +122,9 @@ Static(qq) ==
 Init ==
     /\ q \in CQuanta /\ nsv \in NSV
     /\ st = Static(q)
-    /\ truth = {} /\ std = {} /\ vx = {}
+    /\ truth = {} /\ std = {} /\ plain = {} /\ vx = {}
     /\ vc = [v \in ViewsU(q) |-> {}]
-    /\ cnt = [s0 |-> 0, s1 |-> 0, clr |-> 0]
+    /\ cnt = [s0 |-> 0, s1 |-> 0, clr |-> 0, pl |-> 0]
     /\ pend = ""
     /\ hist = << >>
 
@@ -132,19 +134,33 @@ Init ==
 Room == pend = "" /\ ((~Gen) \/ Len(hist) < Depth)
 Rec(r) == IF Gen THEN Append(hist, r) ELSE hist
 
-SetT(c, t) ==
+\* via: the write path - "set" = Set(col, f=row, timestamp) (Field.SetBit), "import" = an import
+\* with a timestamp (Field.Import: the same views), "views" = a roaring import that names exactly
+\* the time views of the timestamp (API.ImportRoaring with a views map; the standard view is
+\* not written)
+SetT(c, t, via) ==
     /\ Room
     /\ IF c = 0 THEN cnt.s0 < MaxT ELSE cnt.s1 < MaxS
     /\ LET W == ViewsForTime(q, t)
            changed == ((~nsv) /\ c \notin std) \/ \E v \in W : c \notin vc[v]
-       IN /\ std' = IF nsv THEN std ELSE std \cup {c}
+       IN /\ std' = IF nsv \/ via = "views" THEN std ELSE std \cup {c}
           /\ vc' = [v \in DOMAIN vc |-> IF v \in W THEN vc[v] \cup {c} ELSE vc[v]]
           /\ vx' = vx \cup W
           /\ truth' = truth \cup {<<c, t>>}
           /\ cnt' = IF c = 0 THEN [cnt EXCEPT !.s0 = @ + 1] ELSE [cnt EXCEPT !.s1 = @ + 1]
-          /\ hist' = Rec([op |-> "Set", q |-> q, nsv |-> nsv, col |-> c, t |-> t, changed |-> changed])
+          /\ hist' = Rec([op |-> "Set", via |-> via, q |-> q, nsv |-> nsv, col |-> c, t |-> t, changed |-> changed])
     /\ pend' = IF Gen THEN "edge" ELSE ""
-    /\ UNCHANGED <<q, nsv, st>>
+    /\ UNCHANGED <<q, nsv, st, plain>>
+
+\* an import without timestamp: the standard view only (it creates the standard view even
+\* in a field made with noStandardView)
+ImportPlain(c) ==
+    /\ Room /\ cnt.pl < MaxPlain
+    /\ std' = std \cup {c} /\ plain' = plain \cup {c}
+    /\ cnt' = [cnt EXCEPT !.pl = @ + 1]
+    /\ hist' = Rec([op |-> "Plain", via |-> "plain", q |-> q, nsv |-> nsv, col |-> c, t |-> 0, changed |-> c \notin std])
+    /\ pend' = IF Gen THEN "edge" ELSE ""
+    /\ UNCHANGED <<q, nsv, st, truth, vx, vc>>
 
 Clear(c) ==
     /\ Room
@@ -156,7 +172,8 @@ Clear(c) ==
           /\ vc' = r.vc
           /\ truth' = {x \in truth : x[1] # c}
           /\ cnt' = [cnt EXCEPT !.clr = @ + 1]
-          /\ hist' = Rec([op |-> "Clear", q |-> q, nsv |-> nsv, col |-> c, changed |-> changed])
+          /\ hist' = Rec([op |-> "Clear", via |-> "", q |-> q, nsv |-> nsv, col |-> c, changed |-> changed])
+    /\ plain' = plain \ {c}
     /\ pend' = IF Gen THEN "all" ELSE ""
     /\ UNCHANGED <<q, nsv, st, vx>>
 
@@ -165,13 +182,14 @@ Clear(c) ==
 Observe ==
     /\ pend # ""
     /\ hist' = [hist EXCEPT ![Len(hist)] =
-                   [op |-> @.op, q |-> @.q, nsv |-> @.nsv, col |-> @.col, changed |-> @.changed,
+                   [op |-> @.op, via |-> @.via, q |-> @.q, nsv |-> @.nsv, col |-> @.col, changed |-> @.changed,
                     t |-> IF @.op = "Set" THEN @.t ELSE 0,
                     obs |-> Obs(IF pend = "all" THEN st.allr ELSE st.edger, truth, std)]]
     /\ pend' = ""
-    /\ UNCHANGED <<q, nsv, st, truth, std, vx, vc, cnt>>
+    /\ UNCHANGED <<q, nsv, st, truth, std, vx, vc, cnt, plain>>
 
-Next == \/ \E c \in Cols : \E t \in Stamps : SetT(c, t)
+Next == \/ \E c \in Cols : \E t \in Stamps : \E via \in Vias : SetT(c, t, via)
+        \/ \E c \in Cols : ImportPlain(c)
         \/ \E c \in Cols : Clear(c)
         \/ Observe
 Spec == Init /\ [][Next]_vars
@@ -179,15 +197,16 @@ Spec == Init /\ [][Next]_vars
 \* ------------------------------------------------------------ properties
 \* a column without a timestamp (cleared, or never set) is in no view
 ClearedEverywhere ==
-    \A c \in Cols : (~ \E x \in truth : x[1] = c) => (c \notin std /\ \A v \in DOMAIN vc : c \notin vc[v])
+    \A c \in Cols : ((~ \E x \in truth : x[1] = c) /\ c \notin plain) => (c \notin std /\ \A v \in DOMAIN vc : c \notin vc[v])
 \* what the fixed ClearBit relies on: a bit in a view is in every coarser view around it
 ParentsHold ==
     \A v \in DOMAIN vc : \A w \in DOMAIN vc :
         (st.info[w].lo <= st.info[v].lo /\ st.info[v].hi <= st.info[w].hi) => vc[v] \subseteq vc[w]
 \* reading the views of a range returns exactly the columns set with a timestamp in the range
 ReadsTruth == \A x \in SeqRange(st.allr) : ReadRange(q, x[1], x[2], vc, DOMAIN vc) = TruthRange(x[1], x[2])
-StdTruth == (~nsv) => std = {c \in Cols : \E x \in truth : x[1] = c}
-BndsAligned == (cnt.s0 + cnt.s1 + cnt.clr = 0) => \A b \in SeqRange(st.bnds) : Aligned(q, b)
+\* (only meaningful when every bit goes through Set / Import: Vias without "views", MaxPlain = 0)
+StdTruth == ((~nsv) /\ "views" \notin Vias /\ MaxPlain = 0) => std = {c \in Cols : \E x \in truth : x[1] = c}
+BndsAligned == (cnt.s0 + cnt.s1 + cnt.clr + cnt.pl = 0) => \A b \in SeqRange(st.bnds) : Aligned(q, b)
 
 Emit == (Gen /\ Len(hist) = Depth /\ pend = "") => PrintT(<<"BEH", ToJson(hist)>>)
 =============================================================================
